@@ -129,7 +129,17 @@ def run(case):
                 assert str(idx.dtype) == "int64"
                 out.append({"idx": [int(x) for x in idx], "rng": [[int(a), int(b)] for a, b in rng_]})
         else:
-            f = Timeline([tb.S(s) for s in case["focus"]])
+            # the focus is the caller's object: built in part, cropped with this very window (answers discarded),
+            # then completed in place - the crops observed below see its current content
+            segs_ = [tb.S(s) for s in case["focus"]]
+            far_ = max([abs(v) for s in case["focus"] for v in s] + [0]) + 40 * max(1, case["step"])
+            dummy_ = tb.S([far_, far_ + 3 * max(1, case["step"])])
+            f = Timeline(segs_[:len(segs_) // 2] + [dummy_])
+            for m in ("loose", "strict", "center"):
+                w.crop(f, mode=m), w.crop(f, mode=m, return_ranges=True)
+            f.remove(dummy_)
+            for s_ in segs_[len(segs_) // 2:]:
+                f.add(s_)
             for m in ("loose", "strict", "center"):
                 idx = w.crop(f, mode=m)
                 rng_ = w.crop(f, mode=m, return_ranges=True)
